@@ -45,19 +45,23 @@ def make_oracles(cfg):
 
 
 def model_analyze(model, cfg, command: str, cwd: str, remote=False, note=None, record=False):
-    """What analyze() does, with the walk done by the model: strip, parse (real parser), model."""
+    """analyze() in the model (entry analyze_text: the prelude on the text, then the walk); the vendored parser is an
+    oracle: it answers None when it rejects the text or fails on it."""
     lib.use_repo()
     from dippy.vendor.parable import parse, ParseError
 
-    c = command.strip()
-    if not c:
-        return "ask"
-    try:
-        nodes = parse(c)
-    except ParseError:
-        nodes = None
-    req = ["analyze_nodes", cwd, remote, lib.opt([lib.tree(n, note) for n in nodes] if nodes is not None else None)]
-    return model.call(req, make_oracles(cfg), record=record)
+    def o_parse(text):
+        try:
+            nodes = parse(text)
+        except ParseError:
+            return None
+        except (ValueError, IndexError, RecursionError):
+            return None
+        return [[lib.tree(n, note) for n in nodes]]
+
+    orc = make_oracles(cfg)
+    orc["parse"] = o_parse
+    return model.call(["analyze_text", cwd, remote, command], orc, record=record)
 
 
 def make_ladder_oracles(cfg):
